@@ -59,7 +59,7 @@ def run_one(m, worker_cache, keep=False, props=None):
 
 def main():
     args = sys.argv[1:]
-    only = None; jobs = 4; keep = False; benign = False; props = None
+    only = None; jobs = 4; keep = False; benign = False; props = None; result_path = os.path.join(HERE, 'last_result.json')
     i = 0
     while i < len(args):
         if args[i] == '--only': only = set(args[i + 1].split(',')); i += 2
@@ -67,6 +67,7 @@ def main():
         elif args[i] == '--keep': keep = True; i += 1
         elif args[i] == '--benign': benign = True; i += 1
         elif args[i] == '--props': props = args[i + 1].split(','); i += 2
+        elif args[i] == '--result': result_path = args[i + 1]; i += 2
         else: i += 1
     todo = BENIGN if benign else MUTANTS
     if only:
@@ -126,7 +127,7 @@ def main():
                     print(v['tail'].replace('VIOLATION', 'violation'))
     print('summary: applied=%d killed=%d missed=%d skipped=%d broken=%d false_alarms=%d' % (
         len(results) - skipped, killed, missed, skipped, broken, falsealarm))
-    with open(os.path.join(HERE, 'last_result.json'), 'w') as f:
+    with open(result_path, 'w') as f:
         json.dump({'benign': benign, 'results': results}, f, indent=1)
     return 0
 
